@@ -81,7 +81,7 @@ theorem callUser_ints (fuel : Nat) (ctx : X.Ctx) (p : X.Proc) (vs : List Val) (s
 /-- After the callee has returned, the caller's memory represents the state of the reference
     semantics again: its own frame is as it was (from slot `q` on), the globals are the callee's. -/
 theorem rep_return {G : GCtx} (ok : G.OK) {pi : PInfo} (hpi : pi ∈ G.procs) (sp dep : Nat) (hi : Nat → Word)
-    (hlo : G.lo ≤ sp) (hspv : sp + G.S pi ≤ G.spv) {s s' : X.St} {mem1 mem2 : Mem}
+    (hlo : G.lo ≤ sp) (hspv : sp + G.S pi + pi.po + pi.p.formals.length ≤ G.spv + 1) {s s' : X.St} {mem1 mem2 : Mem}
     (rep : Rep (KOf G pi sp dep hi) s mem1) (hg : GRep G s' mem2)
     (hloc : s'.locals = s.locals) (hdep : s'.depth = s.depth) (h1 : mem2.read 1 = BitVec.ofNat 32 sp) (q : Nat)
     (hkeep : ∀ x, sp + q ≤ x → mem2.read x = mem1.read x) (hq : pi.p.locals.length + q ≤ G.S pi) :
@@ -175,7 +175,7 @@ theorem toNat_ofNat_lt (n : Nat) (h : n < 2 ^ 32) : (BitVec.ofNat 32 n).toNat = 
 /-- **A user call with call-free actuals**, as a statement or as the whole right-hand side: the
     code of `genFuncCall` / `genProcCall`, given the specification of callees. -/
 theorem exec_usercall {G : GCtx} (ok : G.OK) (fuel : Nat) (hcs : CallSpec G fuel) {pi : PInfo} (hpi : pi ∈ G.procs)
-    {pj : PInfo} (hpj : pj ∈ G.procs) (sp dep : Nat) (hi : Nat → Word) (hlo : G.lo ≤ sp) (hspv : sp + G.S pi ≤ G.spv)
+    {pj : PInfo} (hpj : pj ∈ G.procs) (sp dep : Nat) (hi : Nat → Word) (hlo : G.lo ≤ sp) (hspv : sp + G.S pi + pi.po + pi.p.formals.length ≤ G.spv + 1)
     (hstack : G.spv ≤ sp + dep * G.smax)
     (es : List X.Expr) (fuel' : Nat) (st s : X.St) (ws : List Word) (hp : ∀ e ∈ es, pureE e = true)
     (hev : X.evalArgs fuel' G.xc es st = .ok (ws.map Val.int) s)
